@@ -1,0 +1,62 @@
+//go:build verif
+
+package sftp
+
+// Add-only instrumentation for the /verif harness family c18 (server buffer allocator).
+// Nothing here is compiled unless the build tag "verif" is set; no existing line is touched.
+
+func verifAllocOf(s any) *allocator {
+	switch v := s.(type) {
+	case *Server:
+		if v != nil && v.pktMgr != nil {
+			return v.pktMgr.alloc
+		}
+	case *RequestServer:
+		if v != nil && v.pktMgr != nil {
+			return v.pktMgr.alloc
+		}
+	}
+	return nil
+}
+
+// VerifAllocCounts reads the allocator of a *Server / *RequestServer: pages marked in use, pages available.
+// ok is false when s has no allocator.
+func VerifAllocCounts(s any) (used, available int, ok bool) {
+	a := verifAllocOf(s)
+	if a == nil {
+		return 0, 0, false
+	}
+	return a.countUsedPages(), a.countAvailablePages(), true
+}
+
+// VerifAllocDupPages counts pages that appear more than once over the used lists and the available list
+// (a page lent twice, or lent while also available).
+func VerifAllocDupPages(s any) (dup int, ok bool) {
+	a := verifAllocOf(s)
+	if a == nil {
+		return 0, false
+	}
+	a.Lock()
+	defer a.Unlock()
+	seen := map[*byte]int{}
+	note := func(p []byte) {
+		if cap(p) == 0 {
+			return
+		}
+		seen[&p[:1][0]]++
+	}
+	for _, l := range a.used {
+		for _, p := range l {
+			note(p)
+		}
+	}
+	for _, p := range a.available {
+		note(p)
+	}
+	for _, n := range seen {
+		if n > 1 {
+			dup += n - 1
+		}
+	}
+	return dup, true
+}
